@@ -399,6 +399,26 @@ CHECKS["C07"] = {
 }
 
 
+CHECKS["C12"] = {
+    "level": "exploration",
+    "technique": "bounded-exhaustive enumeration of raw paths x the complete decoder configuration lattice through the real normaliser, against a reference pipeline and model-free facts",
+    "level_text": "(A) every string of length <= 5 (quick, 5.8e5) / <= 6 (thorough, 8.1e6) over {/ . % u \\ 2 f 0 5 c A NUL 0xC0 0xAF} and (B) every sequence of <= 4 / <= 5 tokens from 28 "
+                  "adversarial tokens (dot segments, %2f %5c %00 %2e %25 %zz, %u002f %uff0f %u0000 %u00 %U002F, raw NUL, overlong / full-width / ill-formed / truncated UTF-8) is normalised "
+                  "through htp_normalize_parsed_uri() under ALL 768 points of the URL_PATH decoder lattice reachable through the public setters (backslash x lowercase x compress x "
+                  "separators-decode x %u-decode x invalid-handling(3) x raw-NUL termination x encoded-NUL termination x best-fit) plus the 8 supported personalities. Oracles: never longer "
+                  "than the raw path, no '.'/'..' segment left, idempotent under re-normalisation; output bytes equal mc/enum_c12.c:ref_path (percent/%u decoding, NUL termination, "
+                  "backslash/lowercase/compression, UTF-8 best-fit, RFC 3986 5.2.4 with the pinned final-slash rule); each of eight anomaly indicators equals the reference's own lexing. "
+                  "A binding slice re-runs short paths through a real request line.",
+    "level_note": "After an ill-formed UTF-8 sequence the resynchronisation is undocumented: output bytes and the overlong / full-width indicators are then not judged (invalid-UTF-8 and all "
+                  "stage-1 indicators still are). response_status_expected_number is not judged. PROCESS_INVALID uses the classic two-digit conversion as its definition.",
+    "design_ref": "DESIGN.md §6 C12",
+    "rule": "odometer enumeration of strings / token sequences x 776 configurations; distinct = distinct (output, flags) results",
+    "bounds": {"quick": "strings <= 5, token sequences <= 4 (9.4e8 evaluations); ASan pass at 3 / 2", "thorough": "strings <= 6, token sequences <= 5; ASan pass at 4 / 3"},
+    "assumptions": ["alphabets of mc/enum_c12.c", "the library's best-fit table as data"],
+    "jobs": lambda tier: [J("enum_c12", "plain"), J("enum_c12", "asan", ["--len", "3", "--tokens", "2"] if tier == "quick" else ["--len", "4", "--tokens", "3"])],
+}
+
+
 def manifest():
     import json, os
     root = os.path.dirname(os.path.dirname(os.path.abspath(__file__)))
@@ -439,6 +459,7 @@ ENGINES = [
     {"name": "ilv", "path": "mc/ilv.c", "serves_properties": ["C19"], "kind_free_text": "E7: all call-level and nested interleavings of parsers sharing one cfg; shared memory mprotect()ed; + tsanrun free-running TSan pass"},
     {"name": "pump", "path": "mc/pump.c", "serves_properties": ["C08"], "kind_free_text": "E6: pump-shape enumeration with a trace-pc-guard work meter"},
     {"name": "decompmc", "path": "mc/decompmc.c", "serves_properties": ["C07"], "kind_free_text": "E1 on compressed bodies: zlib/lzma generators x cut sets, bomb-bound and layer oracles"},
+    {"name": "enum_c12", "path": "mc/enum_c12.c", "serves_properties": ["C12"], "kind_free_text": "E3: exhaustive raw paths x 776 decoder configurations vs reference pipeline"},
     {"name": "cutmc", "path": "mc/cutmc.c", "serves_properties": ["C01", "C02", "C03", "C04", "C06", "C10", "C16"], "kind_free_text": "E1: stateless deviation-bounded explorer of segmentation / generated grammar on the real code"},
 ]
 
